@@ -51,6 +51,12 @@ BuiltinCases == {[k |-> "builtin", fn |-> fn, args |-> a, op |-> "", exp |-> Cla
                 \cup {[k |-> "builtin", fn |-> fn, args |-> a, op |-> "", exp |-> Class(fn, a)] :
                    fn \in {"add", "concat", "range", "raise", "new", "addEvent"}, a \in {v \in Vec(3) : v[1] \in {"list", "elist", "map", "str", "1"}}}
 
+\* thorough tier: every built-in with every vector of three values of a smaller universe
+SmallVals == {"null", "1", "-1", "huge", "str", "list", "map", "func"} \cap Vals
+DeepCases == IF IOEnv.VERIF_TIER = "thorough"
+             THEN {[k |-> "builtin", fn |-> fn, args |-> a, op |-> "", exp |-> Class(fn, a)] : fn \in Builtins, a \in [1..3 -> SmallVals]}
+             ELSE {}
+
 BinOps == {"*", "/", "//", "%", "+", "-", ">=", "<=", "!=", "==", ">", "<", "like", "in", "notin", "hasprefix", "hassuffix", "and", "or"}
 OpClass(op, l, r) ==
   CASE op \in {"*", "/", "//", "+", "-"} -> IF Kind(l) = "num" /\ Kind(r) = "num" THEN "value" ELSE "error"
@@ -77,7 +83,7 @@ StmtCases == {[k |-> st, fn |-> "", args |-> <<v>>, op |-> "", exp |-> "any"] :
                 st \in {"ifguard", "forguard", "forin", "kindmatch", "statematch", "scopematch", "priority", "suppresses", "eventstate", "interp", "mapitem", "mapkey", "mapaccesskey"},
                 v \in Vals}
 
-Cases == BuiltinCases \cup OpCases \cup UnCases \cup AccCases \cup StmtCases
+Cases == BuiltinCases \cup DeepCases \cup OpCases \cup UnCases \cup AccCases \cup StmtCases
 ASSUME PrintT(<<"CASES", Cardinality(Cases)>>)
 ASSUME ndJsonSerialize(IOEnv.VERIF_OUT, SetToSeq(Cases))
 =============================================================================
